@@ -404,6 +404,20 @@ class _Modern(ast.NodeTransformer):
                         st.test = head
                         st.body = self._stmt(inner)
                         self.count += 1
+            # if A and (m := e) [and REST]: BODY else: ELSE   ==>   if A: m = e; if m' [and REST]: BODY else: ELSE   else: ELSE
+            # (ELSE is written twice; it runs once, on the same condition as before)
+            if st.orelse and isinstance(st.test, ast.BoolOp) and isinstance(st.test.op, ast.And) and \
+                    any(isinstance(n, ast.NamedExpr) for n in ast.walk(st.test)):
+                vals = st.test.values
+                k = next((i for i, v in enumerate(vals) if any(isinstance(n, ast.NamedExpr) for n in ast.walk(v))), None)
+                if k and not any(isinstance(n, ast.NamedExpr) for v in vals[:k] for n in ast.walk(v)):
+                    head = vals[0] if k == 1 else _loc(ast.BoolOp(op=ast.And(), values=vals[:k]), st.test)
+                    rest = vals[k] if k == len(vals) - 1 else _loc(ast.BoolOp(op=ast.And(), values=vals[k:]), st.test)
+                    if self._first(rest) is not None or isinstance(rest, ast.NamedExpr):
+                        inner = _loc(ast.If(test=rest, body=st.body, orelse=[_clone(x) for x in st.orelse]), st)
+                        st.test = head
+                        st.body = self._stmt(inner)
+                        self.count += 1
             return pre + [st]
         if isinstance(st, ast.While) and not st.orelse and (isinstance(st.test, ast.NamedExpr) or self._first(st.test) is not None):
             holder = ast.If(test=st.test, body=[], orelse=[])
